@@ -987,6 +987,7 @@ def features(src, tree=None):
     brack = 0
     hash_line = None
     fs_brace = False
+    _fs_state = {}
     quote_stack = []
     for t in toks:
         if t.type == tokenize.OP:
@@ -1048,6 +1049,12 @@ def features(src, tree=None):
             q = t.string.lstrip("rRbBuU")[:1]
             if q == quote_stack[-1][0]:
                 f.add("fstring_nested_quote")
+        if t.type == tokenize.FSTRING_START:
+            if prev is not None and prev.type == tokenize.FSTRING_END and _fs_state.get("last_multiline"):
+                f.add("multiline_fstring_then_fstring")
+            _fs_state.setdefault("stack", []).append(t.start[0])
+        if t.type == tokenize.FSTRING_END and _fs_state.get("stack"):
+            _fs_state["last_multiline"] = t.end[0] > _fs_state["stack"].pop()
         if t.type == tokenize.FSTRING_START:
             fs_brace = False
         if t.type == tokenize.FSTRING_MIDDLE:
